@@ -127,6 +127,9 @@ func checkC15(c *Ctx) {
 
 // ---- 7.2 same spec twice, new process
 
+// otherEnv: the environment of the re-run processes of stageTwice (and of their replay).
+var otherEnv = []string{"LANG=fr_FR.UTF-8", "LC_ALL=fr_FR.UTF-8", "LC_CTYPE=fr_FR.UTF-8", "LANGUAGE=fr:de", "TZ=Pacific/Kiritimati", "HOME=/nonexistent-verif-home", "USER=someone-else", "XDG_CACHE_HOME=/nonexistent-verif-cache", "XDG_CONFIG_HOME=/nonexistent-verif-config", "VERIFSIM_QUIET=1"}
+
 func (c *Ctx) stageTwice(refs map[refKey]*Ref, keys []refKey) {
 	var specs []*Spec
 	var ks []refKey
@@ -137,6 +140,9 @@ func (c *Ctx) stageTwice(refs map[refKey]*Ref, keys []refKey) {
 		}
 		sp := cloneSpec(refs[k].Spec)
 		sp.ID = "twice/" + k.Scenario + "/" + k.Cfg
+		// the second process also lives in another environment: locale, time zone, home and
+		// working directory are not inputs of a render
+		sp.Env = otherEnv
 		specs = append(specs, sp)
 		ks = append(ks, k)
 	}
@@ -163,7 +169,7 @@ func (c *Ctx) stageTwice(refs map[refKey]*Ref, keys []refKey) {
 		if r.EventHash != ref.Res.EventHash || outcomeSig(r.op("t")) != outcomeSig(ref.Write) {
 			d := c.firstTraceDiff(ref.Spec, specs[i], 0, 0, "t", "t")
 			c.Findings = append(c.Findings, &Finding{Class: "rerun-differs", Scenario: ks[i].Scenario, Where: callKind(d),
-				Oracle: "same spec, two fresh processes, canonical map order: event log hash and trace must be equal",
+				Oracle: "same spec, two fresh processes (the second one under another locale, time zone, home and working directory), canonical map order: event log hash and trace must be equal",
 				Detail: fmt.Sprintf("event hash %s vs %s; %s vs %s; %s; uncontrolled sources reported by the rewriter: %v", ref.Res.EventHash, r.EventHash, outcomeSig(ref.Write), outcomeSig(r.op("t")), d, c.Build.Uncontrolled),
 				Spec: specs[i], Spec2: ref.Spec, Expect: "differs-between-processes"})
 		}
